@@ -17,8 +17,8 @@ type SolverResult struct {
 	Status  string // "unsat", "sat", "unknown", "timeout", "error"
 	Solver  string
 	Seconds float64
-	Model   string // raw (get-model) output when sat
-	Output  string // raw solver output (trimmed)
+	Model   string            // raw (get-model) output when sat
+	Output  string            // raw solver output (trimmed)
 	All     map[string]string // solver -> status (thorough mode)
 }
 
@@ -91,7 +91,7 @@ func parseStatus(out string) string {
 
 // runSolvers races (or, if all is set, runs to completion) the portfolio on
 // one query text. wantModel appends (get-model) for solvers answering sat.
-func runSolvers(name, query string, timeoutS int, all bool, solvers []string) SolverResult {
+func runSolvers(name string, queries []string, timeoutS int, all bool, solvers []string) SolverResult {
 	dir := scratchDir()
 	safe := strings.Map(func(r rune) rune {
 		if r >= 'a' && r <= 'z' || r >= 'A' && r <= 'Z' || r >= '0' && r <= '9' || r == '_' || r == '-' || r == '.' {
@@ -102,11 +102,15 @@ func runSolvers(name, query string, timeoutS int, all bool, solvers []string) So
 	if len(safe) > 120 {
 		safe = safe[:120]
 	}
-	file := filepath.Join(dir, fmt.Sprintf("%s-%d.smt2", safe, time.Now().UnixNano()%1000000))
-	if err := os.WriteFile(file, []byte(query), 0o644); err != nil {
-		return SolverResult{Status: "error", Output: err.Error()}
+	var files []string
+	for vi, query := range queries {
+		file := filepath.Join(dir, fmt.Sprintf("%s-%d-v%d.smt2", safe, time.Now().UnixNano()%1000000, vi))
+		if err := os.WriteFile(file, []byte(query), 0o644); err != nil {
+			return SolverResult{Status: "error", Output: err.Error()}
+		}
+		defer os.Remove(file)
+		files = append(files, file)
 	}
-	defer os.Remove(file)
 
 	ctx, cancel := context.WithCancel(context.Background())
 	defer cancel()
@@ -116,42 +120,50 @@ func runSolvers(name, query string, timeoutS int, all bool, solvers []string) So
 		out    string
 		secs   float64
 	}
-	ch := make(chan one, len(solverSpecs))
+	ch := make(chan one, len(solverSpecs)*len(files))
 	n := 0
-	for _, sp := range solverSpecs {
-		if len(solvers) > 0 {
-			ok := false
-			for _, s := range solvers {
-				if s == sp.name {
-					ok = true
+	for vi, file := range files {
+		for _, sp := range solverSpecs {
+			if len(solvers) > 0 {
+				ok := false
+				for _, s := range solvers {
+					if s == sp.name {
+						ok = true
+					}
+				}
+				if !ok {
+					continue
 				}
 			}
-			if !ok {
-				continue
+			n++
+			sp := sp
+			file := file
+			sname := sp.name
+			if vi > 0 {
+				sname = fmt.Sprintf("%s/rec", sp.name)
 			}
+			go func() {
+				argv := sp.argv(file, timeoutS)
+				c, cc := context.WithTimeout(ctx, time.Duration(timeoutS+2)*time.Second)
+				defer cc()
+				cmd := exec.CommandContext(c, argv[0], argv[1:]...)
+				var buf bytes.Buffer
+				cmd.Stdout = &buf
+				cmd.Stderr = &buf
+				t0 := time.Now()
+				_ = cmd.Run()
+				out := buf.String()
+				st := parseStatus(out)
+				if c.Err() != nil && st == "unknown" {
+					st = "timeout"
+				}
+				ch <- one{sname, st, out, time.Since(t0).Seconds()}
+			}()
 		}
-		n++
-		sp := sp
-		go func() {
-			argv := sp.argv(file, timeoutS)
-			c, cc := context.WithTimeout(ctx, time.Duration(timeoutS+2)*time.Second)
-			defer cc()
-			cmd := exec.CommandContext(c, argv[0], argv[1:]...)
-			var buf bytes.Buffer
-			cmd.Stdout = &buf
-			cmd.Stderr = &buf
-			t0 := time.Now()
-			_ = cmd.Run()
-			out := buf.String()
-			st := parseStatus(out)
-			if c.Err() != nil && st == "unknown" {
-				st = "timeout"
-			}
-			ch <- one{sp.name, st, out, time.Since(t0).Seconds()}
-		}()
 	}
 	res := SolverResult{Status: "unknown", All: map[string]string{}}
 	var best *one
+	nerr := 0
 	for i := 0; i < n; i++ {
 		o := <-ch
 		res.All[o.solver] = o.status
@@ -179,6 +191,12 @@ func runSolvers(name, query string, timeoutS int, all bool, solvers []string) So
 			// keep errors visible
 			res.Output += "\n[" + o.solver + "] " + trimOut(o.out)
 		}
+		if o.status == "error" {
+			nerr++
+		}
+	}
+	if best == nil && nerr == n && n > 0 {
+		res.Status = "error"
 	}
 	if best != nil {
 		res.Status = best.status
